@@ -84,6 +84,8 @@ def run_worker(pid: str, tier: str, camp_name: str, shard: int, nshards: int, ou
                 info.classes.append("sub_microsecond_stamps")  # generator dimension shared by every G-sim user
             if isinstance(case, dict) and case.get("unrounded") and "unrounded_fractional_times" not in info.classes:
                 info.classes.append("unrounded_fractional_times")  # HTA_DISABLE_NS_ROUNDING=1, quarter-microsecond stamps
+            if isinstance(case, dict) and case.get("stream_0") and "activity_on_stream_0" not in info.classes:
+                info.classes.append("activity_on_stream_0")  # the legacy default stream (G-iv)
         except Violation as v:
             if state["fail_t"] is None:
                 state["fail_t"] = time.time()
